@@ -1,7 +1,7 @@
 #!/bin/bash
 # nsrun.sh <patch file | -> <command...>
 # Runs <command> in /verif inside a private mount namespace in which /repo is a scratch clone of
-# /repo's HEAD with <patch file> applied, and /verif/{target,out,evidence,replays} are scratch
+# /repo's HEAD with <patch file> applied, and /verif/{harness,target,out,evidence,replays} are scratch
 # copies. Nothing in the real /repo or /verif is touched; everything is removed afterwards.
 # Used to evaluate seeded changes while /repo itself must stay as it is.
 set -e
@@ -11,6 +11,6 @@ trap 'rm -rf "$d"' EXIT
 git clone -q /repo "$d/repo"
 if [ "$patch" != "-" ]; then git -C "$d/repo" apply "$patch"; fi
 mkdir -p /verif/replays /verif/out
-cp -a /verif/target "$d/target"
+cp -a /verif/target "$d/target"; cp -a /verif/harness "$d/harness"
 mkdir "$d/out" "$d/replays"; cp -a /verif/evidence "$d/evidence"
-unshare -m bash -c "mount --bind $d/repo /repo && mount --bind $d/target /verif/target && mount --bind $d/out /verif/out && mount --bind $d/evidence /verif/evidence && mount --bind $d/replays /verif/replays && cd /verif && $*"
+unshare -m bash -c "mount --bind $d/repo /repo && mount --bind $d/target /verif/target && mount --bind $d/harness /verif/harness && mount --bind $d/out /verif/out && mount --bind $d/evidence /verif/evidence && mount --bind $d/replays /verif/replays && cd /verif && $*"
